@@ -137,6 +137,7 @@ func C08(c *core.Ctx) {
 	c.Explain = "Decides structural necessary conditions of C08 (pairing on all exits): (R8.1) in processIncomingInterest every path from the non-duplicate edge after InsertInterest to a function exit schedules the entry's expiry (UpdateExpirationTimer / SetExpirationTimerToNow on that entry) — including the cache-hit return; both helpers reach updatePitExpiry, which pushes or updates the expiry queue; (R8.2) every store csEntry=nil is followed by pruneIfEmpty of that node, PIT removal unlinks token map, counter and prunes the node when empty, every Pop of the expiry queue is followed by the expiry callback and RemoveInterest, the reaper re-arms its timer unless shutting down; (R8.3) counters and containers change together (nPitEntries, nCsEntries, dead-nonce map/queue); (R8.4) the ancestor-walk prune loops of the PIT/CS tree, tree FIB and RIB use only the loop cursor inside the loop; (R8.5) every FIB method that empties next hops or strategy reaches the prune of its implementation. Not decided: the time bound 'no later than shortly after the lifetime', the dead-nonce eviction rate."
 	c.RuleText = "instances: entry-creation site × exits, csEntry=nil stores, PIT removal site, queue pops, counter updates, prune loops (three types), emptying stores in both FIB implementations. Non-trivial = has a path or operand set to decide."
 	p := c.P
+	defer c08Round4b(c)
 
 	// ---- R8.1
 	if pii := c.Fn("R8.1", "fw/fw", "Thread", "processIncomingInterest"); pii != nil {
@@ -783,4 +784,242 @@ func isAppend(v ssa.Value) bool {
 	}
 	b, ok := cl.Call.Value.(*ssa.Builtin)
 	return ok && b.Name() == "append"
+}
+
+// c08Round4b — rules prompted by the second hunt on the repaired tree.
+//
+// R8.6 the expiry queue of the PIT is ordered by a priority that cannot wrap: wherever
+// Time.UnixNano of an entry's expiration time becomes the priority, it is behind a test of
+// that time against the latest representable one (an InterestLifetime of 2^63 ms put the
+// entry at the front of the queue and the next Update removed it — unexpired).
+//
+// R8.7 "dead-nonce records disappear after their configured lifetime": the expiry loop of
+// RemoveExpiredEntries ends only where the queue is empty or its head has not expired —
+// every exit is decided by the queue, not by a budget per call (100 per 100 ms tick drain
+// at most 1000 records per second; above that rate the list only grows).
+//
+// R8.8 the readvertiser forgets a prefix whose last route was withdrawn: on the edge on
+// which the count is no longer positive the key is deleted from the map.
+//
+// R8.9 "the FIB and RIB structures hold nothing beyond what their live entries require":
+// the removal of a face withdraws its next hops from the FIB as well as its routes from
+// the RIB (next hops installed with fib/add-nexthop have no route that would do it).
+func c08Round4b(c *core.Ctx) {
+	p := c.P
+	// ---- R8.6
+	if up := c.Fn("R8.6", "fw/table", "PitCsTree", "updatePitExpiry"); up != nil {
+		var nanos []ssa.Instruction
+		for _, f := range core.Reach(up) {
+			core.Instrs(f, func(in ssa.Instruction) {
+				if cl, ok := in.(*ssa.Call); ok {
+					if cal := cl.Call.StaticCallee(); cal != nil && cal.Name() == "UnixNano" && cal.Pkg != nil && cal.Pkg.Pkg.Path() == "time" {
+						nanos = append(nanos, in)
+					}
+				}
+			})
+		}
+		bad := ""
+		for _, n := range nanos {
+			recv, _ := core.CallArgs(n.(*ssa.Call).Common())
+			beyond := &core.Atom{Name: "time is after the latest representable one", Match: func(cond ssa.Value) (int, int) {
+				cl, ok := core.Strip(cond).(*ssa.Call)
+				if !ok {
+					return 0, 0
+				}
+				cal := cl.Call.StaticCallee()
+				if cal == nil || cal.Pkg == nil || cal.Pkg.Pkg.Path() != "time" || (cal.Name() != "After" && cal.Name() != "Before") {
+					return 0, 0
+				}
+				r, a := core.CallArgs(&cl.Call)
+				if len(a) != 1 {
+					return 0, 0
+				}
+				x, y := r, a[0]
+				if cal.Name() == "Before" {
+					x, y = y, x
+				}
+				if !(core.Strip(x) == core.Strip(recv) || core.Same(x, recv)) {
+					return 0, 0
+				}
+				// the other side: time.Unix(_, constant)
+				mk, isMk := core.Strip(y).(*ssa.Call)
+				if !isMk {
+					return 0, 0
+				}
+				if c2 := mk.Call.StaticCallee(); c2 == nil || c2.Name() != "Unix" {
+					return 0, 0
+				}
+				return 1, -1
+			}}
+			g := core.Gate(n.Parent(), []ssa.Instruction{n}, neg(beyond))
+			if !(g.OK && g.PassEdges > 0) {
+				bad = c.Pos(n)
+			}
+		}
+		c.Decide(len(nanos) > 0 && bad == "", "R8.6", "pit-expiry-priority-cannot-wrap", p.Pos(up.Pos()), fmt.Sprintf("%d uses of UnixNano as the expiry priority, each behind a test against the latest representable time", len(nanos)), "updatePitExpiry queues the entry by UnixNano of its expiration time without a bound ("+bad+"): beyond the year 2262 (an InterestLifetime of about 236 years, or 2^63 ms) the value wraps to a time long past, the next Update removes the entry although its in-record is unexpired, and Data for it reaches nobody")
+	}
+	// ---- R8.7
+	if rm := c.Fn("R8.7", "fw/table", "DeadNonceList", "RemoveExpiredEntries"); rm != nil {
+		var pop *ssa.Call
+		core.Instrs(rm, func(in ssa.Instruction) {
+			if cl, ok := in.(*ssa.Call); ok {
+				if id, okID := core.Callee(&cl.Call); okID && id.Name == "Pop" && core.InLoop(cl.Block()) {
+					pop = cl
+				}
+			}
+		})
+		if pop == nil {
+			c.Und("R8.7", "dnl-expiry-loop", p.Pos(rm.Pos()), "no queue Pop inside a loop found in RemoveExpiredEntries")
+		} else {
+			h := loopHeader(pop.Block())
+			inLoop := func(b *ssa.BasicBlock) bool {
+				if b == h {
+					return true
+				}
+				for _, x := range enclosingLoops(b) {
+					if x == h {
+						return true
+					}
+				}
+				return false
+			}
+			var dependsOnQueue func(v ssa.Value, seen map[ssa.Value]bool) bool
+			dependsOnQueue = func(v ssa.Value, seen map[ssa.Value]bool) bool {
+				if v == nil || seen[v] {
+					return false
+				}
+				seen[v] = true
+				if cl, ok := v.(*ssa.Call); ok {
+					if id, okID := core.Callee(&cl.Call); okID && id.Recv == "Queue" && (id.Name == "Len" || id.Name == "PeekPriority" || id.Name == "Peek") {
+						return true
+					}
+				}
+				in, ok := v.(ssa.Instruction)
+				if !ok {
+					return false
+				}
+				for _, o := range in.Operands(nil) {
+					if o != nil && *o != nil && dependsOnQueue(*o, seen) {
+						return true
+					}
+				}
+				return false
+			}
+			nExit, bad := 0, ""
+			for _, b := range rm.Blocks {
+				if h == nil || !inLoop(b) || len(b.Instrs) == 0 {
+					continue
+				}
+				for _, s2 := range b.Succs {
+					if inLoop(s2) {
+						continue
+					}
+					iff, isIf := b.Instrs[len(b.Instrs)-1].(*ssa.If)
+					if !isIf {
+						continue
+					}
+					nExit++
+					if !dependsOnQueue(iff.Cond, map[ssa.Value]bool{}) {
+						bad = c.Pos(iff)
+					}
+				}
+			}
+			c.Decide(nExit > 0 && bad == "", "R8.7", "dnl-expiry-loop-ends-only-with-the-queue", p.Pos(rm.Pos()), fmt.Sprintf("%d exits of the expiry loop, each decided by the queue (empty / head not expired)", nExit), "RemoveExpiredEntries can stop on a condition that does not depend on the queue ("+bad+", a budget per call): called once per tick, it drains at a bounded rate, and above that rate dead-nonce records stay — and suppress Interests — long after their configured lifetime")
+		}
+	}
+	// ---- R8.8
+	if wd := c.Fn("R8.8", "fw/mgmt", "NlsrReadvertiser", "Withdraw"); wd != nil {
+		positive := &core.Atom{Name: "advertised count > 0", Match: func(cond ssa.Value) (int, int) {
+			op, x, y, ok := core.Cmp(cond)
+			if !ok {
+				return 0, 0
+			}
+			k, isC := core.ConstInt(y)
+			if !isC {
+				return 0, 0
+			}
+			lk, isLk := core.StripConv(x).(*ssa.Lookup)
+			if !isLk {
+				return 0, 0
+			}
+			if _, isF := core.FieldOf(lk.X, "advertised"); !isF {
+				return 0, 0
+			}
+			switch {
+			case op == token.GTR && k == 0, op == token.GEQ && k == 1:
+				return 1, -1
+			case op == token.LEQ && k == 0, op == token.LSS && k == 1, op == token.EQL && k == 0:
+				return -1, 1
+			}
+			return 0, 0
+		}}
+		isDel := func(in ssa.Instruction) bool {
+			cl, ok := isBuiltinCall(in, "delete")
+			if !ok {
+				return false
+			}
+			_, isF := core.FieldOf(cl.Call.Args[0], "advertised")
+			return isF
+		}
+		nEdge, bad := 0, ""
+		for _, f := range core.EdgeFacts(wd, positive) {
+			if f.Holds {
+				continue
+			}
+			nEdge++
+			if fr := core.MustFollow(wd, core.Point{Block: f.E.To, Idx: 0}, isDel, nil); !fr.OK {
+				bad = p.PathString(fr.Path)
+			}
+		}
+		c.Decide(nEdge > 0 && bad == "", "R8.8", "readvertiser-forgets-withdrawn-prefix", p.Pos(wd.Pos()), "where the count of a prefix is no longer positive its key is deleted", "NlsrReadvertiser.Withdraw leaves the key of a prefix in the map when its last route is withdrawn (count 0): one record per prefix ever registered stays for the life of the forwarder")
+	}
+	// ---- R8.9
+	if rmf := c.Fn("R8.9", "fw/face", "Table", "Remove"); rmf != nil {
+		isFibSweep := func(in ssa.Instruction) bool {
+			ci, ok := in.(ssa.CallInstruction)
+			if !ok {
+				return false
+			}
+			id, okID := core.Callee(ci.Common())
+			return okID && id.Pkg == "fw/table" && (id.Name == "RemoveNextHopEnc" || id.Name == "CleanUpFaceFib")
+		}
+		isRibSweep := func(in ssa.Instruction) bool {
+			ci, ok := in.(ssa.CallInstruction)
+			if !ok {
+				return false
+			}
+			id, okID := core.Callee(ci.Common())
+			return okID && id.Name == "CleanUpFace"
+		}
+		// the FIB sweep is reachable in what Remove calls (it sits in a loop over the FIB
+		// entries, so "on every path" is asked of the call of the sweeping helper)
+		reaches := func(isB func(ssa.Instruction) bool) bool {
+			found := false
+			for _, f := range core.Reach(rmf) {
+				core.Instrs(f, func(in ssa.Instruction) {
+					if isB(in) {
+						found = true
+					}
+				})
+			}
+			if found {
+				return true
+			}
+			// one level of static callees outside Reach's helper discipline
+			core.Instrs(rmf, func(in ssa.Instruction) {
+				if ci, ok := in.(*ssa.Call); ok {
+					if cal := ci.Call.StaticCallee(); cal != nil && cal.Blocks != nil {
+						core.Instrs(cal, func(x ssa.Instruction) {
+							if isB(x) {
+								found = true
+							}
+						})
+					}
+				}
+			})
+			return found
+		}
+		c.Decide(reaches(isRibSweep), "R8.9", "face-removal-withdraws-routes", p.Pos(rmf.Pos()), "Table.Remove reaches Rib.CleanUpFace", "the removal of a face does not withdraw its routes from the RIB")
+		c.Decide(reaches(isFibSweep), "R8.9", "face-removal-withdraws-fib-nexthops", p.Pos(rmf.Pos()), "Table.Remove reaches the removal of the face's next hops from the FIB", "the removal of a face cleans the RIB but not the FIB: next hops installed with fib/add-nexthop (no route stands for them) stay on the dead face id, with their FIB entries and tree / virtual nodes, for ever — face ids are not reused")
+	}
 }
